@@ -67,15 +67,15 @@ def run_unit(ctx, proofs_ok):
                  "(3..7 jobs on the 1/64 grid, 1..4 rows); a different walk policy per row (uniform / always-wait / never-wait / "
                  "first / last); 0..2 padding steps after the last row finished; finished rows take random admitted actions.")
     ctx.assumptions += [
-        "sched unit: FFSP's step bound is stated as (one step per operation: exactly J*S real-job steps) + (every step advances the "
-        "clock time_idx*S*M + sub_time_idx): the number of waits is bounded by the schedule's horizon, not by the instance size "
-        "(C02_ffsp_ops_times_machines_bound_refuted)",
+        "sched unit: FFSP's step bound is (J*S*(Dmax+2) + 2) * S*M (C02_ffsp_step_bound: real-job steps are exactly J*S, every step "
+        "advances the clock, and time is bounded by the instance); the guess J*S*(1+M) is refuted "
+        "(C02_ffsp_ops_times_machines_bound_refuted: the number of waits depends on the durations)",
         "sched unit: SMTWTP has no inert action (mask of a finished row is empty); all rows of a batch finish at step n (proved), "
         "so no row is ever stepped after it finished",
     ]
     with C.Threads():
         coll = C.Collector(ctx, "C02", "sched")
-        scale = C.budget(ctx, 4, 16)
+        scale = C.budget(ctx, 4, 40)
         res = C.sched_streams(ctx, rng, torch, scale, coll, "c02")
         n = _evaluate(ctx, res, coll, "")
         unit = dict(n, models="Env/FJSP.v, Env/FFSP.v, Env/SMTWTP.v; Env/SchedBatch.v, Env/SchedBatch2.v",
